@@ -131,6 +131,17 @@ def apply_op(world, tr, op, viol, stats=None, check_model=True):
             m.files.pop(u, None)
             _reconcile(world, tr, world.disk(), viol, stats=stats)
         obs = ("remove",)
+    elif kind == "remove_spelled":
+        spelled, u = op[1], op[2]
+        try:
+            world.remove(spelled)
+        except Exception as exc:  # noqa
+            viol("raises", f"remove({spelled}) raised {type(exc).__name__}: {exc}")
+            return ("raised", type(exc).__name__)
+        if check_model:
+            m.files.pop(u, None)
+            _reconcile(world, tr, world.disk(), viol, stats=stats)
+        obs = ("remove",)
     elif kind == "purge":
         try:
             world.purge()
@@ -160,6 +171,16 @@ def apply_op(world, tr, op, viol, stats=None, check_model=True):
         m.tick += 1
         m.files[u][1] = m.tick
         obs = ("touch",)
+    elif kind == "read":
+        # an external consumer reads the file: only the ACCESS time moves (the cache ranks by the later of
+        # access and modification time, so this is a use)
+        u = op[1]
+        st = os.stat(tr.path[u])
+        t = lab.CLOCK.tick()
+        lab._real_utime(tr.path[u], (t, st.st_mtime))
+        m.tick += 1
+        m.files[u][1] = m.tick
+        obs = ("read",)
     elif kind == "age":
         u = op[1]
         oldest = min(v[1] for v in m.files.values()) - 1
@@ -229,12 +250,14 @@ def canon(world, tr):
     m = tr.m
     disk = world.disk()
     cf = {f: v for f, v in disk.items() if lab.World.is_cache_name(f)}
-    rec = sorted({v[2] for v in cf.values()})
+    # access and modification stamps are ranked separately (one common scale): the library uses the later of
+    # the two, but a state that differs only in WHICH of them is recent must not be merged with one that does not
+    rec = sorted({v[3] for v in cf.values()} | {v[4] for v in cf.values()})
     cls = sorted({v[1] for v in m.files.values()})
     name_to_uri = {os.path.basename(p): u for u, p in tr.path.items() if u in m.files}
     entries = getattr(world.cache, "_entries", {})
     files = tuple(sorted(
-        (name_to_uri.get(f, "?" + f), v[0], rec.index(v[2]),
+        (name_to_uri.get(f, "?" + f), v[0], rec.index(v[3]), rec.index(v[4]),
          cls.index(m.files[name_to_uri[f]][1]) if f in name_to_uri else -1, f in entries)
         for f, v in cf.items()
     ))
@@ -269,6 +292,12 @@ def enabled_ops(tr, maxlen, depth_here):
     for u in cached:
         ops.append(("touch", u))
         ops.append(("age", u))
+        ops.append(("read", u))
+    # removal of a cached URI spelled with a directive prefix (directives are not part of the key)
+    if U["a"] in m.files:
+        ops.append(("remove_spelled", "validate=v:" + U["a"], U["a"]))
+    if U["ax"] in m.files:
+        ops.append(("remove_spelled", "postprocess=p:" + U["ax"], U["ax"]))
     for n in FOREIGN:
         if n not in m.foreign:
             ops.append(("foreign", n))
@@ -342,7 +371,7 @@ def run_bfs(unit):
                 transitions += 1
                 c.evaluations += 1
                 outcomes.add(obs_s)
-                if before != after or op[0] in ("touch", "age", "reopen"):
+                if before != after or op[0] in ("touch", "age", "read", "reopen"):
                     c.nontriv(n=0)
                     c.cat("nontrivial_transition")
                 for check, what, mode in vlist:
@@ -407,7 +436,7 @@ def run_one_schedule(uris, limit, prefix, prehistory):
             err = exc
     can = canon(w, tr)
     # intra-request stamp order is schedule dependent and not observable by the property: drop ranks
-    can_obs = (tuple(sorted((f[0], f[1], f[4]) for f in can[0])), can[1], can[2], can[3])
+    can_obs = (tuple(sorted((f[0], f[1], f[5]) for f in can[0])), can[1], can[2], can[3])
     sched = w.sched
     res = {
         "obs": obs, "canon": can_obs, "violations": vl, "choices": list(sched.choices),
@@ -482,7 +511,7 @@ def run_sched(unit):
         apply_op(ws, trs, op, lambda a, b: vl.append((a, b)))
     obs_seq = apply_op(ws, trs, ("get", uris), lambda a, b: vl.append((a, b)), stats=c)
     can = canon(ws, trs)
-    can_seq = (tuple(sorted((f[0], f[1], f[4]) for f in can[0])), can[1], can[2], can[3])
+    can_seq = (tuple(sorted((f[0], f[1], f[5]) for f in can[0])), can[1], can[2], can[3])
     ws.close()
     for check, what in vl:
         c.violation({"engine": "sched", "request": label, "check": check, "mode": "sequential"}, f"{check}: {what}")
